@@ -320,7 +320,7 @@ func pmathSweep(lim int) *explore.Scenario {
 				for n := 0; n <= 2*max+2 && n <= 1<<17+2; n++ {
 					cl := g.VerifClass(n)
 					c.Count(0, 1)
-					if cl < n || (cl != step && !isPow2(cl)) || cl%step != 0 {
+					if cl < n {
 						c.Fail("class", fmt.Sprintf("pool New(%d) (shards %d step %d): class(%d)=%d", max, shards, step, n, cl), n)
 					}
 					if got := cap(*bp.Get(n)); got != cl {
